@@ -6,6 +6,11 @@
                      kinds: 0 firstlast, 1 firstlast_valid, 2 firstlast_splicing, 3 slice, 4 slice_array
                      events: i >= 0 = next() on view i, -1 = tscale()
              output: per event  enc(out) ++ [iw or -1 for None; nalloc]   (Object.run_schedule)
+   mode 4    input : ns :: nswin :: ov :: 4 :: axis :: nrows :: ncols :: data (row-major)
+             output: enc_option over the windows of  [rows; cols] ++ data  of  np.take(sig, arange(first,last), axis)
+   mode 5    input : ns :: nswin :: ov :: 5 :: fn :: fd :: p1 :: q1 :: p2 :: q2 ...   (p_k/q_k = the exact value of the
+                     k-th float returned by tscale(fn/fd))
+             output: number of windows :: for each k  1 if p_k/q_k = tscale_q fn fd (window k) exactly else 0
    Constructor arguments in other representations (NumPy ints, unsigned, floats) are mode 0 cases:
    the object must behave as for the same Python ints. *)
 From Coq Require Import ZArith List Bool.
@@ -41,6 +46,29 @@ Definition enc_out (x : out) : list Z :=
 Definition enc_obj (o : obj) : list Z :=
   [match o_iw o with Some z => z | None => -1 end; o_nalloc o].
 
+Fixpoint chunks (fuel : nat) (c : Z) (l : list Z) : list (list Z) :=
+  match fuel with
+  | O => []
+  | S f => firstn (Z.to_nat c) l :: chunks f c (skipn (Z.to_nat c) l)
+  end.
+
+Definition enc_arr (a : list (list Z)) : list Z :=
+  Z.of_nat (length a) :: Z.of_nat (match a with r :: _ => length r | [] => O end) :: concat a.
+
+Fixpoint pairs (l : list Z) : list (Z * Z) :=
+  match l with
+  | p :: q :: r => (p, q) :: pairs r
+  | _ => []
+  end.
+
+Fixpoint check_times (fn fd : Z) (ws : list (Z * Z)) (pq : list (Z * Z)) : list Z :=
+  match ws, pq with
+  | w :: wr, (p, q) :: pr =>
+      (let '(num, den) := tscale_q fn fd w in if p * den =? q * num then 1 else 0) :: check_times fn fd wr pr
+  | _ :: wr, [] => 0 :: check_times fn fd wr []
+  | [], _ => []
+  end.
+
 Definition run (inp : list Z) : list Z :=
   match inp with
   | [ns; nswin; ov; sp] =>
@@ -57,6 +85,22 @@ Definition run (inp : list Z) : list Z :=
             flat_map (fun p => enc_out (fst p) ++ enc_obj (snd p))
                      (snd (run_schedule ns nswin ov (map dec_kind ks) (map dec_event es)))
         | [] => [-999]
+        end
+      else if mode =? 4 then
+        match rest with
+        | axis :: nr :: nc :: data =>
+            enc_option (fun L => Z.of_nat (length L) :: flat_map enc_arr L)
+                       (slice_array_model ns nswin ov axis (chunks (Z.to_nat nr) nc data))
+        | _ => [-999]
+        end
+      else if mode =? 5 then
+        match rest with
+        | fn :: fd :: pq =>
+            match firstlast ns nswin ov with
+            | Some l => Z.of_nat (length l) :: Z.of_nat (length (pairs pq)) :: check_times fn fd l (pairs pq)
+            | None => [-1]
+            end
+        | _ => [-999]
         end
       else [-999]
   | _ => [-999]
